@@ -246,6 +246,14 @@ def runOp (op : String) (args : List String) : String :=
   | "ixfr", qid :: qser :: reads =>
     let (d, n) := inIxfr (qid.toNat?.getD 0) (qser.toNat?.getD 0) (parseReads reads) 0 0 true
     s!"{n} {showEnvs d}"
+  | "tsig.digest", [msg, oid, key, ttl, alg, ts, fudge, err, other, mac, timers] =>
+    match unhex msg, unhex key, unhex alg, unhex other, unhex mac with
+    | some msg, some key, some alg, some other, some mac =>
+      let v : TsigVars := ⟨key, ttl.toNat?.getD 0, alg, ts.toNat?.getD 0, fudge.toNat?.getD 0, err.toNat?.getD 0, other⟩
+      hex (tsigDigest msg (oid.toNat?.getD 0) v mac (timers == "1"))
+    | _, _, _, _, _ => "bad-op"
+  | "tsig.time", [now, ts, fudge] => match now.toNat?, ts.toNat?, fudge.toNat? with
+    | some now, some ts, some fudge => showB (tsigTimeOk now ts fudge) | _, _, _ => "bad-op"
   | "lab.count", [t] => match unhex t with
     | some s => toString (countLabel s) | _ => "bad-op"
   | "lab.split", [t] => match unhex t with
